@@ -145,7 +145,13 @@ func (f *function) diffEnv() (bool, string, diff.ValueDiff, error) {
 		return false, "", nil, fmt.Errorf("comparing function environments: %w", err)
 	}
 	if structural && eq {
-		return true, "", nil, nil
+		if f.newData == "" || f.targetInfo.Data == "" {
+			return true, "", nil, nil
+		}
+		// The encodings differ although the environments compare equal: values that are equal
+		// under == can still be told apart by the function (1 and 1.0, the order of a dict's
+		// entries). The parts of the environment are compared through their encodings.
+		structural = false
 	}
 
 	oldEnv, ok := f.oldEnv.(*starlark.Dict)
@@ -177,7 +183,7 @@ func (f *function) diffEnv() (bool, string, diff.ValueDiff, error) {
 	var reasons []string
 
 	for _, k := range functionEnvKeys {
-		if structural && bool(md.Has(k)) || !structural && !sameEnvPart(oldEnv, newEnv, k) {
+		if structural && bool(md.Has(k)) || !sameEnvPart(oldEnv, newEnv, k) {
 			reasons = append(reasons, string(k))
 		}
 	}
@@ -320,15 +326,16 @@ func functionEnv(f starlark.Callable) (starlark.Value, error) {
 }
 
 // sameEnvPart reports whether the given part of two function environments is the same. Parts
-// that cannot be compared structurally are compared through their encodings.
+// that are equal under == or that cannot be compared structurally are compared through their
+// encodings.
 func sameEnvPart(x, y *starlark.Dict, key starlark.String) bool {
 	xv, xok, _ := x.Get(key)
 	yv, yok, _ := y.Get(key)
 	if !xok || !yok {
 		return xok == yok
 	}
-	if eq, err := starlark.EqualDepth(xv, yv, 1000); err == nil {
-		return eq
+	if eq, err := starlark.EqualDepth(xv, yv, 1000); err == nil && !eq {
+		return false
 	}
 	var xb, yb bytes.Buffer
 	if pickle.NewEncoder(&xb, nil).Encode(xv) != nil || pickle.NewEncoder(&yb, nil).Encode(yv) != nil {
